@@ -8,11 +8,13 @@
   * (b) `canonical_guard_iff`: the `diff / isTop / guard` range checks hold iff `H·2^N + L ≤ R-1`
     (needs `1 ≤ N ≤ 254`; `guard_fails_at_zero` shows that `N = 0` is a genuine exception),
   * (c) `isZero_gadget_sound/_complete`,
-  * (d) `decomp_sound`, `decomp_unique`, `decomp_complete`, `decomp_alias_255`.
+  * (d) `decomp_sound`, `decomp_unique`, `decomp_complete`, `decomp_alias_255`
+    (+ `decomp_alias_ge_255`, `decomp_alias_255_general`).
 -/
 import Mathlib.Tactic.Ring
 import Mathlib.Tactic.Linarith
 import Mathlib.Tactic.LinearCombination
+import Mathlib.Algebra.BigOperators.Intervals
 import Plonk.Proofs.FieldBridge
 
 namespace Plonk
@@ -20,7 +22,7 @@ open Plonk
 
 /-! ### numeric facts about `R` -/
 
-theorem R_lt_two_pow_255 : R < 2 ^ 255 := by decide +kernel
+theorem R_lt_pow255 : R < 2 ^ 255 := by decide +kernel
 theorem two_pow_254_le_R : 2 ^ 254 ≤ R := by decide +kernel
 theorem R_sub_one_lt_two_pow_256 : R - 1 < 2 ^ 256 := by decide +kernel
 
@@ -57,7 +59,7 @@ theorem rHigh_lt_R (N : Nat) : rHigh N < R := by
 theorem rHigh_lt (N : Nat) (hN : N ≤ 255) : rHigh N < 2 ^ (255 - N) := by
   rw [rHigh_eq, Nat.div_lt_iff_lt_mul (by positivity), ← pow_add]
   have : 255 - N + N = 255 := by omega
-  rw [this]; have := R_lt_two_pow_255; omega
+  rw [this]; have := R_lt_pow255; omega
 
 /-! ### `pow2`, casts, values of differences -/
 
@@ -146,7 +148,7 @@ theorem split_complete (N x : Nat) (hN : N ≤ 255) (hx : x < R) :
   refine ⟨?_, Nat.mod_lt _ hp, ?_, by omega⟩
   · rw [Nat.div_lt_iff_lt_mul hp, ← pow_add]
     have : 255 - N + N = 255 := by omega
-    rw [this]; have := R_lt_two_pow_255; omega
+    rw [this]; have := R_lt_pow255; omega
   · rw [← toF_natCast_pow, ← toF_mul, ← toF_add, e]
 
 /-! ### (c) the is-zero gadget -/
@@ -324,9 +326,9 @@ theorem guard_fails_at_zero :
   have e : toF (rHigh 0) - toF R = toF (R - 1) := by
     rw [rHigh_eq, toF_R, pow_zero, Nat.div_one]; ring
   have hv : (toF (R - 1)).val = R - 1 := val_toF_of_lt (by omega)
-  refine ⟨R_lt_two_pow_255, by norm_num, ⟨0, ?_, Or.inl rfl, ⟨fun h => absurd h zero_ne_one, ?_⟩, ?_⟩,
+  refine ⟨R_lt_pow255, by norm_num, ⟨0, ?_, Or.inl rfl, ⟨fun h => absurd h zero_ne_one, ?_⟩, ?_⟩,
     by omega⟩
-  · rw [e, hv]; have := R_lt_two_pow_255; omega
+  · rw [e, hv]; have := R_lt_pow255; omega
   · intro h; exfalso
     rw [e] at h
     have : (toF (R - 1)).val = 0 := by rw [h]; exact ZMod.val_zero
@@ -358,5 +360,176 @@ theorem truncation_complete (N x : Nat) (hN1 : 1 ≤ N) (hN : N ≤ 254) (hx : x
         (isTop * (toF (rLow N) - toF (x % 2 ^ N))).val < 2 ^ N := by
   obtain ⟨h1, h2, h3, h4⟩ := split_complete N x (by omega) hx
   exact ⟨h1, h2, h3, (canonical_guard_gadget_iff N _ _ hN1 hN h1 h2).mpr h4⟩
+
+/-! ### (d) bit decomposition -/
+
+open Finset in
+/-- a sum of `n` binary digits is below `2^n` -/
+theorem binsum_lt (β : Nat → Nat) (n : Nat) (hβ : ∀ j < n, β j ≤ 1) :
+    ∑ j ∈ range n, β j * 2 ^ j < 2 ^ n := by
+  induction n with
+  | zero => simp
+  | succ n ih =>
+    rw [sum_range_succ, pow_succ]
+    have := ih (fun j hj => hβ j (by omega))
+    have h1 : β n * 2 ^ n ≤ 1 * 2 ^ n := Nat.mul_le_mul_right _ (hβ n (by omega))
+    omega
+
+open Finset in
+/-- the digits of a binary sum are its bits -/
+theorem binsum_bit (n : Nat) : ∀ (β : Nat → Nat), (∀ j < n, β j ≤ 1) → ∀ i < n,
+    (∑ j ∈ range n, β j * 2 ^ j) / 2 ^ i % 2 = β i := by
+  induction n with
+  | zero => intro β _ i hi; omega
+  | succ n ih =>
+    intro β hβ i hi
+    rw [sum_range_succ']
+    have e : ∑ j ∈ range n, β (j + 1) * 2 ^ (j + 1) = 2 * ∑ j ∈ range n, β (j + 1) * 2 ^ j := by
+      rw [mul_sum]; apply sum_congr rfl; intro j _; rw [pow_succ]; ring
+    rw [e, pow_zero, mul_one]
+    have h0 := hβ 0 (by omega)
+    cases i with
+    | zero => rw [pow_zero, Nat.div_one]; omega
+    | succ i =>
+      have h := ih (fun j => β (j + 1)) (fun j hj => hβ (j + 1) (by omega)) i (by omega)
+      rw [pow_succ', ← Nat.div_div_eq_div_mul]
+      have : (2 * ∑ j ∈ range n, β (j + 1) * 2 ^ j + β 0) / 2 = ∑ j ∈ range n, β (j + 1) * 2 ^ j := by
+        omega
+      rw [this]; exact h
+
+open Finset in
+/-- every natural is the sum of its low bits: `Σ_{i<n} bit v i · 2^i = v % 2^n` -/
+theorem sum_bits_eq_mod (v n : Nat) : ∑ i ∈ range n, bit v i * 2 ^ i = v % 2 ^ n := by
+  induction n with
+  | zero => simp [Nat.mod_one]
+  | succ n ih => rw [sum_range_succ, ih, Nat.mod_pow_succ]; unfold bit; ring
+
+theorem bit_le_one (v i : Nat) : bit v i ≤ 1 := by unfold bit; omega
+
+/-- the constraints of `component_decomposition::<N>` at the field level: Boolean bits,
+    accumulator `acc₀ = 0`, `acc_{i+1} = 2^i·b_i + acc_i`, and `acc_N = x`. -/
+def DecompChain (N : Nat) (b acc : Nat → F) (x : F) : Prop :=
+  (∀ i < N, b i * b i = b i) ∧ acc 0 = 0 ∧
+  (∀ i < N, acc (i + 1) = (2 : F) ^ i * b i + acc i) ∧ acc N = x
+
+theorem bool_cases {b : F} (h : b * b = b) : b = 0 ∨ b = 1 := by
+  have : b * (b - 1) = 0 := by linear_combination h
+  rcases mul_eq_zero.mp this with h | h
+  · exact Or.inl h
+  · exact Or.inr (sub_eq_zero.mp h)
+
+theorem bool_val_le_one {b : F} (h : b * b = b) : b.val ≤ 1 := by
+  rcases bool_cases h with h | h
+  · rw [h, ZMod.val_zero]; omega
+  · rw [h, ← toF_one, val_toF_of_lt R_gt_one]
+
+open Finset in
+/-- the accumulator is the cast of the binary sum -/
+theorem decomp_acc (N : Nat) (b acc : Nat → F) (x : F) (h : DecompChain N b acc x) :
+    ∀ k ≤ N, acc k = toF (∑ j ∈ range k, (b j).val * 2 ^ j) := by
+  obtain ⟨_, h0, hstep, _⟩ := h
+  intro k hk
+  induction k with
+  | zero => simpa using h0
+  | succ k ih =>
+    rw [hstep k (by omega), ih (by omega), sum_range_succ, toF_add, toF_mul, toF_natCast_pow,
+      toF_val]
+    ring
+
+open Finset in
+/-- (d) `decomp_sound`: for `N ≤ 254` the decomposition constraints force `x < 2^N` and the bits
+    to be the canonical bits of `x`. -/
+theorem decomp_sound (N : Nat) (hN : N ≤ 254) (b acc : Nat → F) (x : F)
+    (h : DecompChain N b acc x) :
+    x.val = ∑ i ∈ range N, (b i).val * 2 ^ i ∧ x.val < 2 ^ N ∧
+    ∀ i < N, (b i).val = bit x.val i := by
+  have hβ : ∀ j < N, (b j).val ≤ 1 := fun j hj => bool_val_le_one (h.1 j hj)
+  have hlt := binsum_lt (fun j => (b j).val) N hβ
+  have hacc := decomp_acc N b acc x h N le_rfl
+  rw [h.2.2.2] at hacc
+  have hR : 2 ^ N ≤ R :=
+    le_trans (Nat.pow_le_pow_right (by norm_num) hN) two_pow_254_le_R
+  have hval : x.val = ∑ i ∈ range N, (b i).val * 2 ^ i := by
+    rw [hacc, val_toF_of_lt (by omega)]
+  refine ⟨hval, by rw [hval]; exact hlt, ?_⟩
+  intro i hi
+  rw [hval]; unfold bit
+  exact (binsum_bit N (fun j => (b j).val) hβ i hi).symm
+
+/-- (d) uniqueness of the bit vector for `N ≤ 254` -/
+theorem decomp_unique (N : Nat) (hN : N ≤ 254) (b acc b' acc' : Nat → F) (x : F)
+    (h : DecompChain N b acc x) (h' : DecompChain N b' acc' x) : ∀ i < N, b i = b' i := by
+  intro i hi
+  apply ZMod.val_injective
+  rw [(decomp_sound N hN b acc x h).2.2 i hi, (decomp_sound N hN b' acc' x h').2.2 i hi]
+
+/-- (d) completeness, for an arbitrary natural `v` (not necessarily `< R`): its low `N` bits
+    satisfy the constraints for `x = v % 2^N` (in `F`). -/
+theorem decomp_chain_of_nat (N v : Nat) :
+    DecompChain N (fun i => toF (bit v i)) (fun k => toF (v % 2 ^ k)) (toF (v % 2 ^ N)) := by
+  refine ⟨?_, by simp [Nat.mod_one], ?_, rfl⟩
+  · intro i _
+    have : bit v i = 0 ∨ bit v i = 1 := by have := bit_le_one v i; omega
+    rcases this with h | h <;> simp [h]
+  · intro i _
+    simp only
+    rw [Nat.mod_pow_succ, toF_add, toF_mul, toF_natCast_pow]; unfold bit; ring
+
+/-- (d) completeness: a field element with `x.val < 2^N` has a satisfying assignment, namely
+    its canonical bits (what the model's `componentDecomposition` allocates). -/
+theorem decomp_complete (N : Nat) (x : F) (hx : x.val < 2 ^ N) :
+    DecompChain N (fun i => toF (bit x.val i)) (fun k => toF (x.val % 2 ^ k)) x := by
+  have := decomp_chain_of_nat N x.val
+  rw [Nat.mod_eq_of_lt hx, toF_val] at this; exact this
+
+theorem R_mod_two_pow_255 : R % 2 ^ 255 = R := by decide +kernel
+theorem bit_R_zero : bit R 0 = 1 := by decide +kernel
+
+/-- (d) `decomp_alias_255`: **uniqueness fails for `N = 255`** (no `< r` guard in
+    `component_decomposition`): `x = 0` has two different satisfying bit vectors — all zeros, and
+    the 255 bits of `R` itself, which recompose to `R ≡ 0`. -/
+theorem decomp_alias_255 :
+    DecompChain 255 (fun _ => 0) (fun _ => 0) 0 ∧
+    DecompChain 255 (fun i => toF (bit R i)) (fun k => toF (R % 2 ^ k)) 0 ∧
+    (fun i => toF (bit R i)) 0 ≠ (fun _ => (0 : F)) 0 := by
+  refine ⟨⟨fun _ _ => by ring, rfl, fun _ _ => by ring, rfl⟩, ?_, ?_⟩
+  · have := decomp_chain_of_nat 255 R
+    rw [R_mod_two_pow_255, toF_R] at this; exact this
+  · simp only [bit_R_zero, toF_one]; exact one_ne_zero
+
+/-- the same alias for every width `N ≥ 255` (the crate allows `N ≤ 256`) -/
+theorem decomp_alias_ge_255 (N : Nat) (hN : 255 ≤ N) :
+    DecompChain N (fun _ => 0) (fun _ => 0) 0 ∧
+    DecompChain N (fun i => toF (bit R i)) (fun k => toF (R % 2 ^ k)) 0 ∧
+    0 < N ∧ (fun i => toF (bit R i)) 0 ≠ (fun _ => (0 : F)) 0 := by
+  refine ⟨⟨fun _ _ => by ring, rfl, fun _ _ => by ring, rfl⟩, ?_, by omega, ?_⟩
+  · have := decomp_chain_of_nat N R
+    have hlt : R < 2 ^ N :=
+      lt_of_lt_of_le R_lt_pow255 (Nat.pow_le_pow_right (by norm_num) hN)
+    rw [Nat.mod_eq_of_lt hlt, toF_R] at this; exact this
+  · simp only [bit_R_zero, toF_one]; exact one_ne_zero
+
+open Finset in
+/-- general form of the alias: every `x` with `x.val + R < 2^255` has two different
+    255-bit decompositions (the bits of `x.val` and the bits of `x.val + R`). -/
+theorem decomp_alias_255_general (x : F) (hx : x.val + R < 2 ^ 255) :
+    DecompChain 255 (fun i => toF (bit x.val i)) (fun k => toF (x.val % 2 ^ k)) x ∧
+    DecompChain 255 (fun i => toF (bit (x.val + R) i)) (fun k => toF ((x.val + R) % 2 ^ k)) x ∧
+    ∃ i < 255, toF (bit x.val i) ≠ toF (bit (x.val + R) i) := by
+  refine ⟨decomp_complete 255 x (by omega), ?_, ?_⟩
+  · have := decomp_chain_of_nat 255 (x.val + R)
+    rw [Nat.mod_eq_of_lt hx, toF_add, toF_R, toF_val, add_zero] at this; exact this
+  · by_contra hne
+    have hne : ∀ i < 255, toF (bit x.val i) = toF (bit (x.val + R) i) := by
+      intro i hi; by_contra h; exact hne ⟨i, hi, h⟩
+    have hb : ∀ i ∈ range 255, bit x.val i * 2 ^ i = bit (x.val + R) i * 2 ^ i := by
+      intro i hi
+      have hlt : ∀ v, bit v i < R := fun v => by
+        have := bit_le_one v i; have := R_gt_one; omega
+      rw [(toF_inj_of_lt (hlt _) (hlt _)).mp (hne i (mem_range.mp hi))]
+    have h1 := sum_bits_eq_mod x.val 255
+    have h2 := sum_bits_eq_mod (x.val + R) 255
+    rw [sum_congr rfl hb, h2, Nat.mod_eq_of_lt hx, Nat.mod_eq_of_lt (by omega)] at h1
+    have := R_pos; omega
 
 end Plonk
